@@ -32,7 +32,7 @@ ASSUMPTIONS = [
     "reported",
 ]
 NONTRIVIAL = ["cell"]
-DEADLINE = {"quick": 60, "thorough": 900}
+DEADLINE = {"quick": 90, "thorough": 900}
 
 VERS = [(3, 0), (3, 1), (3, 2), (3, 3), (3, 4)]
 MAXAGE = 3600
